@@ -20,3 +20,10 @@ Print Assumptions C19_silent_after_close.
 Theorem C19_close_closes : forall s, tcp_open (fst (do_close s)) = false.
 Proof. exact close_closes. Qed.
 Print Assumptions C19_close_closes.
+
+(* nothing is routed after the close: no headers-parsed notification (from which the server routes) is ever emitted
+   once Socket::close() has run, for every later schedule and every application *)
+Theorem C19_no_headers_after_close : forall e p s ops k,
+  no_hdr (snd (run_ops_from e p k (fst (do_close s)) ops)).
+Proof. exact no_headers_after_close. Qed.
+Print Assumptions C19_no_headers_after_close.
